@@ -20,7 +20,7 @@ var zzOnnxCode = map[string]int64{"float32": 1, "uint8": 2, "int8": 3, "uint16":
 
 func c11CastTo[S zzNumber, D zzNumber](v *zzverif.T) {
 	shape := v.CInts("shape")
-	xs := zzverif.Syms[S](v, "x", zzverif.Prod(shape))
+	xs := zzverif.Data[S](v, "x", zzverif.Prod(shape))
 	X := zzverif.NewTensor(xs, shape)
 	snap := v.Snapshot(X)
 	r := zzRun(v, "Cast", []*onnx.AttributeProto{zzAttrI("to", zzOnnxCode[v.CStr("to")])}, []tensor.Tensor{X})
@@ -65,7 +65,7 @@ func c11CastFrom[S zzNumber](v *zzverif.T) {
 	default:
 		// a target that is not one of the ten numeric types must be refused
 		shape := v.CInts("shape")
-		xs := zzverif.Syms[S](v, "x", zzverif.Prod(shape))
+		xs := zzverif.Data[S](v, "x", zzverif.Prod(shape))
 		code := int64(v.CInt("code"))
 		if v.CStr("to") == "symbolic" {
 			code = zzverif.Sym[int64](v, "to")
